@@ -226,7 +226,10 @@ func init() {
 						m := strings.TrimRight(o1.Matched, "; \n\t")
 						if m == strings.TrimRight(text, "; \n\t") {
 							ev["consumedProgram"] = true
-							if run.Sig == "ok" {
+							if run.Sig == "ok" && o1.Ret == "UNORDERED" {
+								// a string that renders a dict was replaced by the marker (map order): nothing to compare it with
+								ev["consumedProgram"] = false
+							} else if run.Sig == "ok" {
 								var got J
 								_ = json.Unmarshal([]byte(o1.Ret), &got)
 								gotJ := reproject(got)
